@@ -12,7 +12,7 @@ META = dict(
     explanation='The real rxsci.data.codec encode/decode operators run over pure-Python incremental codec models (contract stubs, validated against CPython\'s codecs on a boundary alphabet x every cut at the start of every run). '
                 'Strings are lists of symbolic code points over the whole Unicode range minus surrogates (astral, combining, U+FEFF are just values of the variables); the string list has a concrete shape (lengths per item, empty strings included); '
                 'the encoded byte stream is cut at two positions (first concrete per obligation, second solver-chosen; inside multi-byte sequences) and decoded: the concatenation of decoded strings must equal the concatenation of the originals, '
-                'the encoder must emit one chunk per item plus a final flush, decode must finish without error, and for utf-16/utf-32 the byte-order mark must appear exactly once at the start.',
+                'the encoder must emit one chunk per item plus a final flush, a second subscription of the same encode / decode pipeline must behave like the first (fresh codec state per subscription), decode must finish without error, and for utf-16/utf-32 the byte-order mark must appear exactly once at the start.',
     bounds=dict(quick='<= 2 strings, <= 2 code points in total, 2 cuts; utf-8, utf-16, utf-32, latin-1 (code points <= 0xFF)', thorough='<= 3 strings, <= 3 code points in total'),
     outside='CPython\'s codec implementations themselves (replaced by validated models); incremental=False (each item independent, documented as such); more code points than the bound',
     assumptions=['codecs.getincrementalencoder/decoder behave as vp/stubs/codecs_model.py (validated against CPython at run start)'],
@@ -54,12 +54,17 @@ def roundtrip(p):
             items.append(''.join(chr(c) for c in a[k:k + l]))
             k += l
         kw = {} if p.get('default') else dict(encoding=enc)
-        encd = []
-        done = []
-        _with_stub(lambda: D.src(items).pipe(codec.encode(**kw)).subscribe(on_next=encd.append, on_error=lambda e: done.append(('ERR', repr(e))), on_completed=lambda: done.append('C')))
-        if done != ['C'] or len(encd) != len(items) + 1:
-            return fail(stage='encode', items=items, observed=encd, done=done)
-        whole = b''.join(encd)
+        eobs = D.src(items).pipe(codec.encode(**kw))
+        whole = None
+        for sub in (1, 2):        # a second subscription of the same pipeline is a new stream: it must start from a fresh codec state
+            encd = []
+            done = []
+            _with_stub(lambda: eobs.subscribe(on_next=encd.append, on_error=lambda e: done.append(('ERR', repr(e))), on_completed=lambda: done.append('C')))
+            if done != ['C'] or len(encd) != len(items) + 1:
+                return fail(stage='encode', subscription=sub, items=items, observed=encd, done=done)
+            if whole is not None and b''.join(encd) != whole:
+                return fail(stage='encode', subscription=sub, items=items, observed=b''.join(encd), expected=whole)
+            whole = b''.join(encd)
         if enc in BOM:
             b = BOM[enc]
             if whole[:len(b)] != b or len(whole) != len(b) + sum(len(x) for x in encd[1:]) + len(encd[0]) - len(b):
@@ -68,13 +73,15 @@ def roundtrip(p):
             return True
         c2 = c1 + _sel(a[ncp], len(whole) - c1 + 1)
         chunks = [whole[:c1], whole[c1:c2], whole[c2:]]
-        out = []
-        done2 = []
-        _with_stub(lambda: D.src(chunks).pipe(codec.decode(**kw)).subscribe(on_next=out.append, on_error=lambda e: done2.append(('ERR', repr(e))), on_completed=lambda: done2.append('C')))
-        got = ''.join(out)
+        dobs = D.src(chunks).pipe(codec.decode(**kw))
         exp = ''.join(items)
-        if done2 != ['C'] or got != exp:
-            return fail(enc=enc, items=items, encoded=whole, chunks=chunks, observed=got, expected=exp, done=done2)
+        for sub in (1, 2):
+            out = []
+            done2 = []
+            _with_stub(lambda: dobs.subscribe(on_next=out.append, on_error=lambda e: done2.append(('ERR', repr(e))), on_completed=lambda: done2.append('C')))
+            got = ''.join(out)
+            if done2 != ['C'] or got != exp:
+                return fail(enc=enc, subscription=sub, items=items, encoded=whole, chunks=chunks, observed=got, expected=exp, done=done2)
         return True
     return mk('codec_roundtrip', sig, pre, body)
 
